@@ -13,7 +13,7 @@ from ..model import cap, tls, pcapio
 PROP = "C12"
 LEVEL = "exploration"
 BASES = ["tls12", "tls13", "quic", "mixed", "snap"]
-SNAP_CUT = 5     # base 'snap': two packets were captured without their last 5 bytes (captured length < original length)
+SNAP_CUT = 5     # base 'snap': three packets were captured without their last 5 bytes (captured length < original length)
 T0 = Fraction(100000)
 STEP = Fraction(1, 8)
 
@@ -30,7 +30,7 @@ ALTS = {
 
 def describe(tier):
     return {
-        "rule": "bases TLS 1.2, TLS 1.3, QUIC, mixed, and a capture with two snap-cut packets (captured length < original length); every container variant within 2 deviations of the default over: 5 formats, 7 "
+        "rule": "bases TLS 1.2, TLS 1.3, QUIC, mixed, and a capture with three snap-cut packets (application data, a QUIC datagram, the middle of a handshake flight) (captured length < original length); every container variant within 2 deviations of the default over: 5 formats, 7 "
                 "if_tsresol values, 3 if_tsoffset values, 6 kinds of unrelated block each inserted at EVERY position (one execution "
                 "per position), 4 option sets. non-trivial: a variant whose output equals the base output and holds data; "
                 "distinct = distinct (base, variant, position)",
@@ -51,6 +51,7 @@ def base_capture(name, seed):
     if name == "snap":
         flows.append(scen.tls_flow({"version": tls.TLS12, "suite": 0x009C, "history": [("c", 30), ("s", 50), ("s", 61), ("s", 72), ("c", 20)]}, seed, 0))
         flows.append(scen.quic_flow({"suite": 0x1301, "script": [("c", [(0, 30)]), ("s", [(0, 44)]), ("s", [(0, 55)]), ("c", [(0, 9)])]}, seed, 2))
+        flows.append(scen.tls_flow({"version": tls.TLS12, "suite": 0xC030, "history": [("c", 33), ("s", 66)]}, seed, 3, mss=300))
     if name in ("tls12", "mixed"):
         flows.append(scen.tls_flow({"version": tls.TLS12, "suite": 0x009C, "history": [("c", 30), ("s", 50)]}, seed, 0))
     if name in ("tls13", "mixed"):
@@ -67,6 +68,10 @@ def base_capture(name, seed):
         for cid in (0, 2):
             srv = [p for p in pkts if p.conn == cid and p.dir == "s" and p.payload]
             srv[-2].frame = SnapFrame(srv[-2].frame)
+        # ... and so is the first segment of the third connection's server flight (the missing bytes lie in the certificate,
+        # which nobody interprets - but the TCP stream has a hole there)
+        srv = [p for p in pkts if p.conn == 3 and p.dir == "s" and p.payload]
+        srv[0].frame = SnapFrame(srv[0].frame)
     return pkts, lines
 
 
